@@ -107,8 +107,8 @@ def run_check(prop, tier, seed=0):
         pass
     mod = importlib.import_module("rules.%s" % prop.lower())
     configs = [""]
-    if tier == "thorough" and getattr(mod, "FEATURE_CONFIGS", None):
-        configs = [""] + list(mod.FEATURE_CONFIGS)
+    if tier == "thorough":
+        configs = ["", "no-flush"]      # the crate's only feature: every rule is re-evaluated under it
     progs = {}
     cache_hits = {}
     for cfg in configs:
@@ -126,6 +126,26 @@ def run_check(prop, tier, seed=0):
         crashed = traceback.format_exc()
         cx.bad("engine", "checker-crash", "", crashed[-1500:])
     cx.finish_floors()
+    # thorough tier: the same rules on the facts of every other feature configuration
+    for cfg, q in progs.items():
+        if cfg == "default" or crashed:
+            continue
+        sub = Cx(prop, tier, q, {"default": q, cfg: q})
+        try:
+            mod.check(sub)
+        except core.AnchorMissing as e:
+            sub.bad("engine", "anchor-missing", "", str(e))
+        except Exception:
+            sub.bad("engine", "checker-crash", "", traceback.format_exc()[-1500:])
+        sub.finish_floors()
+        skip = set(getattr(mod, "CONFIG_DEPENDENT", {}).get(cfg, ()))
+        for o in sub.obl:
+            if o["key"] in skip:
+                continue
+            o = dict(o)
+            o["config"] = cfg
+            o["detail"] = "[--features %s] %s" % (cfg, o["detail"])
+            cx.obl.append(o)
 
     known = [k for k in load_known() if k.get("property") == prop]
     known_keys = {k["key"]: k for k in known if k.get("status") == "known"}
@@ -138,7 +158,11 @@ def run_check(prop, tier, seed=0):
         else:
             viol.append(o)
 
+    printed = set()
     for o, k in kf:
+        if o["key"] in printed:
+            continue
+        printed.add(o["key"])
         print("KNOWN-FINDING: property=%s %s %s — %s" % (prop, o["key"], o["where"], k.get("what", "")))
     replay = None
     if viol:
